@@ -194,6 +194,26 @@ def check(ctx):
             o = dict(o)
             o["rule"] = "C12.S4"
             ctx.obligations.append(o)
+    # the copy steps of every bundled implementation of the mounted-store interface (the test double included) move bytes
+    # verbatim: whatever file they open themselves - in the copy methods or in helpers below them - is opened in binary mode
+    n_copy = 0
+    for cls in m.classes.values():
+        if ms not in cls.repo_mro() or cls is ms:
+            continue
+        for nm in ("copy_from_local", "copy_to_local"):
+            meth = cls.methods.get(nm)
+            if meth is None:
+                continue
+            for g_ in {meth} | {x for x in m.reachable([meth], kinds=("call",)) if x.module is meth.module}:
+                for c in g_.own_calls():
+                    if ext_names(m, g_, c) & {"builtins.open", "io.open"}:
+                        n_copy += 1
+                        mode = arg(c, 1, "mode")
+                        okb = isinstance(mode, ast.Constant) and isinstance(mode.value, str) and "b" in mode.value
+                        ctx.ob("C12.S2", f"{cls.name}.{nm}/binary-copy", okb, loc(g_, c),
+                               "the copy step opens the file in binary mode" if okb else
+                               "the copy step opens the staged file in text mode: decoding and newline translation change the bytes on the way "
+                               "('\\r\\n' and '\\r' come back as '\\n'), so what read returns is not what was written", norm(c)[:100])
     # ------------------------------------------------------------ S3 missing => None
     g = [f for f in m.find_funcs("get_modified_time") if f.cls is None and f.module is filestore.module]
     if len(g) != 1:
